@@ -523,7 +523,26 @@ func shapeCoeffUint64(c *Ctx, r *RuleResult) {
 			return
 		}
 		kp, okK := toCaller(LP.poly(K))
-		base, okB := toCaller(LP.poly(factor).add(LP.poly(iv), -1)) // factor - i
+		basePoly := LP.poly(factor).add(LP.poly(iv), -1) // factor - i
+		// a factor kept in a second counter that moves in step with i (num := n-k; num++ per trip):
+		// the affine equalities of the loop (Karr) say what it is in terms of i
+		loopPhis := func(p Poly) int {
+			n := 0
+			for _, ph := range LP.phisIn(p) {
+				if body[ph.Block()] {
+					n++
+				}
+			}
+			return n
+		}
+		if loopPhis(basePoly) > 0 {
+			if rw := LP.karrRewrite(basePoly, mul.Block()); loopPhis(rw) == 0 {
+				basePoly = rw
+			} else if rw := LP.karrRewrite(basePoly, h); loopPhis(rw) == 0 {
+				basePoly = rw
+			}
+		}
+		base, okB := toCaller(basePoly)
 		if !okK || !okB {
 			r.undecided("comb.CoeffUint64: the loop bound or factor of %s is not a function of its parameters", c.short(loopFn))
 			return
@@ -824,6 +843,16 @@ func boundedByValue(P *Prover, bo *ssa.BinOp, b *ssa.BasicBlock) string {
 	if P.Prove(res.add(constP(-(1<<61)), 1), b) {
 		return "bounded by a constant"
 	}
+	// counter + bounded value in uint64: a counter that a loop advances by a constant is not judged
+	// by this rule (l++ is not an instance: no run takes 2^61 steps); adding to it a value that is
+	// itself at most 2^62 (a converted non-negative int, say) stays below 2^64 for the same reason
+	if bo.Op == token.ADD && isUnsigned(bo.Type()) && intBits(bo.Type()) == 64 {
+		for _, pr := range [][2]ssa.Value{{bo.X, bo.Y}, {bo.Y, bo.X}} {
+			if isStepCounter(pr[0]) && (P.Prove(P.poly(pr[1]).add(constP(-(1<<62)-1), 1), b) || fromNonNegInt(P, pr[1], b)) {
+				return "a constant-step loop counter plus a value of at most 2^63 (a converted non-negative int)"
+			}
+		}
+	}
 	// candidates: parameters and phis / values of the same type mentioned in dominating conditions
 	var cands []ssa.Value
 	for _, p := range bo.Parent().Params {
@@ -974,4 +1003,49 @@ func ruleUnsConv(c *Ctx, fns []*ssa.Function) *RuleResult {
 		}
 	}
 	return r
+}
+
+// isStepCounter: a loop-carried value whose only change is the addition of a positive constant.
+func isStepCounter(v ssa.Value) bool {
+	ph, ok := v.(*ssa.Phi)
+	if !ok {
+		return false
+	}
+	steps := 0
+	for _, e := range ph.Edges {
+		bo, isBo := e.(*ssa.BinOp)
+		if !isBo || bo.Op != token.ADD || bo.X != ssa.Value(ph) {
+			if _, isK := e.(*ssa.Const); isK {
+				continue
+			}
+			if isBo {
+				return false
+			}
+			continue // an initial value from outside the loop
+		}
+		k, isK := constInt(bo.Y)
+		if !isK || k <= 0 || k > 1<<16 {
+			return false
+		}
+		steps++
+	}
+	return steps >= 1
+}
+
+// fromNonNegInt: v is uint64(x) (+ a small constant) for a signed x proved non-negative: at most 2^63.
+func fromNonNegInt(P *Prover, v ssa.Value, b *ssa.BasicBlock) bool {
+	for depth := 0; depth < 3; depth++ {
+		if bo, ok := v.(*ssa.BinOp); ok && bo.Op == token.ADD {
+			if k, isK := constInt(bo.Y); isK && k >= 0 && k <= 1<<16 {
+				v = bo.X
+				continue
+			}
+		}
+		break
+	}
+	cv, ok := v.(*ssa.Convert)
+	if !ok || !isInt(cv.X.Type()) || isUnsigned(cv.X.Type()) {
+		return false
+	}
+	return P.Prove(P.poly(cv.X).scale(-1), cv.Block())
 }
